@@ -381,7 +381,7 @@ def run_pass(world, pspec, vector):
 
     stall = None
     try:
-        sched.run(body, watchdog_s=pspec.get("watchdog_s", 60.0))
+        sched.run(body, watchdog_s=pspec.get("watchdog_s", 45.0))
     except Stall as e:
         stall = str(e)
 
